@@ -267,6 +267,13 @@ def C15(run):
     run.assumptions += ["parser precedence is not judged: both evaluators are judged on the AST the real parser produced",
                         "end-to-end index-present/absent equivalence is exercised by the C01/C07 system driver"]
     _e2e_part(run, "C15:")
+    # job level: a program with a block index and two block-filtered mappers sharing a key, every subset of the segment's files
+    # (index file present or absent, outputs cached or not) x every stage: the files left must equal the clean run's
+    trj = _t(run, "jobs-idx.ndjson")
+    infoj = run.harness("jobs", trj, extra=["-x", "idx"])
+    vj = run.validate("TraceJob", trj)
+    run.judge(vj, trj, "jobs-idx", only="C15:")
+    run.cov["distinct_nontrivial"] += infoj["distinct_nontrivial"]
 
 
 def _e2e_part(run, prefix):
